@@ -2,10 +2,11 @@ SPECIFICATION Spec
 CONSTANTS
   NMarkets = 3
   Conns <- QuickConns
-  KeyOffs = {0, 1}
+  KeyOffs = {1}
   PRICE = {6}
   AMOUNT = {5}
-  TIME = {1, 2}
+  TIME = {1}
+  DupKinds = {0, 2}
   MaxBatch = 2
 INVARIANTS TypeOK KeysDistinct
 PROPERTIES Attribution RejectUnsubscribed FieldsPreserved Quiet
